@@ -561,6 +561,10 @@ func mergeFamily(r *rng, nRandom int, seedBase uint64) []namedSched {
 			Generative: true,
 			MapDen:     []uint32{5, 5, 8, 16}[r.intn(4)],
 			MapKinds:   0b11110,
+			// only matters if the merger starts goroutines of its own: they
+			// become simulated tasks and this is their preemption density
+			PreemptDen: []uint32{0, 2, 4, 16}[r.intn(4)],
+			MaxSteps:   5_000_000,
 		}
 		fam = append(fam, namedSched{fmt.Sprintf("random-%d", i), cfg})
 	}
